@@ -251,6 +251,23 @@ def check(P, R):
     cts = [st for st in walk_shallow(de.node) if isinstance(st, ast.Assign) and 'Content-Type' in src(st.targets[0]) and is_const(st.value, 'application/json')]
     ok = bool(cts) and gd.edge_dominates(jt[0], 'true', gd.node_of_stmt(cts[0])[0])
     R.ob('C20.e', de, cts[0] if cts else de.node, ok, text='Content-Type: application/json on the same branch', detail='' if ok else 'the JSON body is not labelled application/json')
+    ij = P.func('ombott.request_pkg.props_mixin:PropsMixin.is_json_requested')
+    rets_ = [n for n in walk_shallow(ij.node) if isinstance(n, ast.Return) and n.value is not None]
+    for r in rets_:
+        v = r.value
+        ok = isinstance(v, ast.Call) and call_attr(v) == 'startswith' and v.args and is_const(v.args[0], 'application/json')
+        det = ''
+        if not ok:
+            cpx = compare_parts(v)
+            if cpx and cpx[1] is ast.Eq and is_const(cpx[2], 'application/json'):
+                cl = ij.rd.closure_nodes(cpx[0], ij.cfg.node_of_stmt(r)[0])
+                ok = any(isinstance(x, ast.Call) and call_attr(x) in ('split', 'partition') and x.args and is_const(x.args[0], ';') for x in cl)
+                det = '' if ok else ('the Accept media range is compared for equality with "application/json" without dropping its parameters: '
+                                     '"application/json;q=0.9" or "application/json; charset=utf-8" no longer counts as a JSON request and gets the HTML page')
+            else:
+                det = 'cannot recognise how a JSON request is detected'
+        R.ob('C20.e', ij, r, ok, text=f'JSON requested <=> Accept starts with application/json: {short(v)}', detail=det,
+             why='when JSON is requested the error body is valid JSON', key_extra='json-detect')
     rc = [c for c in walk_shallow(de.node) if isinstance(c, ast.Call) and dotted(c.func) == 'error_render.render']
     ok = bool(rc) and len(rc[0].args) == 3 and src(rc[0].args[1]) == 'self.request.url' and src(rc[0].args[2]) == 'self.config.debug'
     R.ob('C20.e', de, rc[0] if rc else de.node, ok, text='render(res, self.request.url, self.config.debug)', detail='' if ok else 'the HTML page is not rendered from (error, url, debug)')
